@@ -67,6 +67,9 @@ theorem _root_.Ckks.Sem.Near.comp2 {x ya yb Ma Mb ε Ea Eb la lb : ℚ} {βa βb
 
 def upd {α : Type} (f : Nat → α) (d : Nat) (v : α) : Nat → α := fun j => if j = d then v else f j
 
+theorem upd_self {α : Type} (f : Nat → α) (d : Nat) : upd f d (f d) = f := by
+  funext j; unfold upd; split <;> simp_all
+
 /-- the program on plaintext coefficient vectors (slot `j`, coefficient `t`) -/
 def specM (M : Nat → Nat → ℚ) : LOp → Nat → Nat → ℚ
   | .add sub d a b => upd M d (fun t => 1 * M a t + sg sub * M b t)
@@ -79,6 +82,7 @@ def specM (M : Nat → Nat → ℚ) : LOp → Nat → Nat → ℚ
   | .divPow2Assign d bits => upd M d (fun t => (2 ^ bits)⁻¹ * M d t)
   | .rescale d _ a => upd M d (fun t => 1 * M a t)
   | .rescaleAssign d _ => upd M d (fun t => 1 * M d t)
+  | .align _ _ => M
 
 /-- the error budget: `σ = 1 + Σ‖sᵢ‖₁`, `u` = one unit of the last limb of the result of this call -/
 def specE (σ u : ℚ) (E : Nat → ℚ) : LOp → Nat → ℚ
@@ -92,11 +96,12 @@ def specE (σ u : ℚ) (E : Nat → ℚ) : LOp → Nat → ℚ
   | .divPow2Assign d bits => upd E d (0 + (2 ^ bits)⁻¹ * E d)
   | .rescale d _ a => upd E d (σ * u + 1 * E a)
   | .rescaleAssign d _ => upd E d (0 + 1 * E d)
+  | .align _ _ => E
 
 /-- destination slot -/
 def LOp.dst : LOp → Nat
   | .add _ d _ _ | .addAssign _ d _ | .neg d _ | .negAssign d | .mulPow2 d _ _ | .mulPow2Assign d _
-  | .divPow2 d _ _ | .divPow2Assign d _ | .rescale d _ _ | .rescaleAssign d _ => d
+  | .divPow2 d _ _ | .divPow2Assign d _ | .rescale d _ _ | .rescaleAssign d _ | .align d _ => d
 
 /-- one unit of the last limb at the scale of the decoded value, from the metadata alone -/
 def ulpM (env : Env) (c : Ct) : ℚ := 2 ^ c.md.logBudget / 2 ^ (env.base2k * c.size)
@@ -423,6 +428,56 @@ theorem dstep_sem {env : Env} (he : EnvOK env) {N r : Nat} {pool : DPool} (hp : 
     rw [wrap_ct hct]
     simpa using this
 
+
+  | align a b =>
+    have hm' : alignStep env (DPool.cts pool) a b = .ok mp := hm
+    unfold alignStep at hm'
+    cases ha : (DPool.cts pool)[a]? with
+    | none => simp [ha] at hm'
+    | some ca =>
+      cases hb : (DPool.cts pool)[b]? with
+      | none => simp [ha, hb] at hm'
+      | some cb =>
+        simp only [ha, hb] at hm'
+        obtain ⟨xa, hxa, rfl⟩ := cts_some ha
+        obtain ⟨xb, hxb, rfl⟩ := cts_some hb
+        by_cases hab : a = b
+        · simp [hab] at hm'
+        · simp only [hab, if_false] at hm'
+          by_cases hlt : xa.ct.md.logBudget < xb.ct.md.logBudget
+          · simp only [hlt, if_true, usub, Nat.le_of_lt hlt] at hm'
+            obtain ⟨m, hf, rfl⟩ := putRes_ok' hm'
+            obtain ⟨c', h1, hct, hok, hv⟩ := dRescaleAssign_sem he (hp.get hxb) _ hf
+            refine ⟨pool.set b c', ?_, by rw [cts_set, hct], hp.set b hok, fun s M E ht => ?_⟩
+            · have hlt' : xa.md.logBudget < xb.md.logBudget := hlt
+              simp only [dstep, hxa, hxb, hab, if_false, hlt', if_true, dput]
+              have h1' : dRescaleAssign env N xb (xb.md.logBudget - xa.md.logBudget) = .ok c' := h1
+              rw [h1']; rfl
+            · simp only [specM, specE]
+              have := ht.set b c' (fun t => M b t) (E b) fun t htN => by
+                have h0 := hv s t htN
+                rw [← one_mul (decC s xb t), wrap_ct hct] at h0
+                have := h0.comp1 (ht b xb hxb t htN) (dvd_one (rescaleAssign_budget hf))
+                rw [wrap_ct hct]
+                simpa using this
+              rwa [upd_self, upd_self] at this
+          · have hge : xb.ct.md.logBudget ≤ xa.ct.md.logBudget := Nat.le_of_not_lt hlt
+            simp only [hlt, if_false, usub, hge, if_true] at hm'
+            obtain ⟨m, hf, rfl⟩ := putRes_ok' hm'
+            obtain ⟨c', h1, hct, hok, hv⟩ := dRescaleAssign_sem he (hp.get hxa) _ hf
+            refine ⟨pool.set a c', ?_, by rw [cts_set, hct], hp.set a hok, fun s M E ht => ?_⟩
+            · have hlt' : ¬ xa.md.logBudget < xb.md.logBudget := hlt
+              simp only [dstep, hxa, hxb, hab, if_false, hlt', dput]
+              have h1' : dRescaleAssign env N xa (xa.md.logBudget - xb.md.logBudget) = .ok c' := h1
+              rw [h1']; rfl
+            · simp only [specM, specE]
+              have := ht.set a c' (fun t => M a t) (E a) fun t htN => by
+                have h0 := hv s t htN
+                rw [← one_mul (decC s xa t), wrap_ct hct] at h0
+                have := h0.comp1 (ht a xa hxa t htN) (dvd_one (rescaleAssign_budget hf))
+                rw [wrap_ct hct]
+                simpa using this
+              rwa [upd_self, upd_self] at this
 
 /-! ### programs -/
 
